@@ -146,20 +146,20 @@ pub fn corpus() -> Vec<Vec<u8>> {
             let mut enc = Encapsulator::new(DefaultCrc {});
             let mut buf = vec![0u8; b];
             match do_encap(&mut enc, &pd, 2, 0x0800, l, &mut buf) {
-                EncOut::Completed(n) => v.push(buf[..n].to_vec()),
+                EncOut::Completed(n) => v.push(buf[..(n).min(buf.len())].to_vec()),
                 EncOut::Fragmented(n, mut ctx) => {
-                    v.push(buf[..n].to_vec());
+                    v.push(buf[..(n).min(buf.len())].to_vec());
                     for b2 in [9usize, 64] {
                         let mut c = ctx;
                         loop {
                             let mut bb = vec![0u8; b2];
                             match do_encap_frag(&enc, &pd, c, &mut bb) {
                                 EncOut::Fragmented(n2, c2) => {
-                                    v.push(bb[..n2].to_vec());
+                                    v.push(bb[..(n2).min(bb.len())].to_vec());
                                     c = c2;
                                 }
                                 EncOut::Completed(n2) => {
-                                    v.push(bb[..n2].to_vec());
+                                    v.push(bb[..(n2).min(bb.len())].to_vec());
                                     break;
                                 }
                                 _ => break,
@@ -187,11 +187,11 @@ pub fn corpus() -> Vec<Vec<u8>> {
     let mut buf = vec![0u8; 64];
     let _ = do_encap(&mut enc, &pd, 2, 0x0800, L6A, &mut buf);
     if let Some(n) = do_encap(&mut enc, &pd, 2, 0x0800, L6A, &mut buf).len() {
-        v.push(buf[..n].to_vec());
+        v.push(buf[..(n).min(buf.len())].to_vec());
     }
     let mut b2 = vec![0u8; 12];
     if let Some(n) = do_encap(&mut enc, &pd, 2, 0x0800, L6A, &mut b2).len() {
-        v.push(b2[..n].to_vec());
+        v.push(b2[..(n).min(b2.len())].to_vec());
     }
     v.sort();
     v.dedup();
